@@ -116,6 +116,8 @@ def build_bar(spec):
         val = V.BY_LABEL[label.split("~")[0]][1]
         if label.endswith("~f"):
             val = float(val)                 # the same value spelled as a float (4.0), as Track.from_chords produces them
+        if label.endswith("~q"):
+            val = V.BY_LABEL[label.split("~")[0]][2]              # ... and as the exact fraction (32/7 for a double-dotted eighth)
         if not bar.place_notes(nc, val):
             return None, None
         expected.append(expected_entry(nc, label.split("~")[0]))
@@ -162,10 +164,15 @@ def build_composition(spec):
     if spec.get("author") is not None:
         c.set_author(spec["author"])
     exp = []
+    pool = {}
     for ts in spec["tracks"]:
         t, e = build_track(ts)
         if t is None:
             return None, None
+        if spec.get("share_instruments") and t.instrument is not None:
+            # players of the same instrument: the tracks point at one Instrument object
+            k = (type(t.instrument).__name__, t.instrument.name)
+            t.instrument = pool.setdefault(k, t.instrument)
         c.add_track(t)
         exp.append({"name": t.name, "instrument": None if t.instrument is None else t.instrument.name, "bars": e})
     return c, exp
@@ -731,7 +738,7 @@ def run_value_forms(case):
     importlib.reload(_mvalue)
     importlib.reload(LY)
     importlib.reload(MX)
-    for lab in ([label + "~f", label] if order == "float_first" else [label, label + "~f"]):
+    for lab in ([label + "~f", label + "~q", label] if order == "float_first" else [label, label + "~q", label + "~f"]):
         spec = {"key": "C", "meter": list(BIG_METER), "showkey": True, "showtime": True,
                 "entries": [[[["C", 4]], lab], [None, lab], [[["E", 4], ["G", 4]], lab]]}
         if via == "ly":
@@ -982,6 +989,8 @@ def gen_xml_comp(shard):
                 tr = [zt[arg]] + [zt[i] for i in seq]
                 yield {"tracks": tr}
                 yield {"title": "T <1> & \"x\"", "author": "A & 'B'", "tracks": tr}
+                if n >= 2:
+                    yield {"tracks": tr, "share_instruments": True}
     elif kind == "field":
         field, strs = arg
         for s in strs:
@@ -1078,8 +1087,9 @@ def explore(ctx):
         ctx.product("ly_composition", shards, gen_ly_comp)
 
     if ctx.want("value_forms"):
-        bases = ["1", "2", "4", "8", "16", "32", "64", "128"]
-        ctx.bound("value_forms", {"base values": bases, "orders": ["float_first", "int_first"], "exports": ["ly", "xml"]})
+        bases = ["1", "2", "4", "8", "16", "32", "64", "128", "4.", "8..", "2...", "16....", "32..", "8*3:2", "16*5:4", "4*7:4"]
+        ctx.bound("value_forms", {"values": bases, "spellings": ["int / float as the vocabulary has it", "float", "exact Fraction"],
+                                  "orders": ["float_first", "int_first"], "exports": ["ly", "xml"]})
         ctx.product("value_forms", bases, lambda b: ([b, o, via] for o in ("float_first", "int_first") for via in ("ly", "xml")))
     if ctx.want("rerender"):
         ctx.bound("rerender", {"bars": len(RERENDER_BARS), "edits": RERENDER_EDITS, "exports": RERENDER_VIAS})
